@@ -3231,3 +3231,79 @@ func oracleSeedNoWrapGroup(c *Ctx, rule string) {
 		c.Pass(rule, k, fn.Pos(), 2*len(seeds)+1, "no wrap: the seed is not computed from the sentinel version")
 	}
 }
+
+// activeSegmentStateGroup (C10, C08): the value-log segment installed as Manager.active is
+// appended to and remapped as it grows.  Readers of a *sealed* segment only pin it (no store
+// lock), readers of the *active* one take the store's read lock, so a segment that becomes the
+// active one while still marked sealed is remapped under its readers.  Typestate condition:
+// every function that stores an already existing segment (looked up in Manager.files) into
+// Manager.active either created it in the same function (Manager.create), is the constructor
+// (Open: populate decides the states), or calls activate() on that very segment.
+func activeSegmentStateGroup(c *Ctx, rule string) {
+	c.Rule(rule, "every store of an existing segment (a Manager.files lookup) into vlog.Manager.active happens in a function that created the segment (Manager.create), in vlog.Open, or in a function that calls segment.activate() on that segment")
+	n := 0
+	for _, f := range c.P.ModFuncs {
+		if FuncPkgPath(f) != Module+"/vlog" || f.Parent() != nil {
+			continue
+		}
+		stores := fieldStoresIn(f, false, "vlog.Manager", "active")
+		for i, st := range stores {
+			sv, ok := st.(*ssa.Store)
+			if !ok || IsNilConst(sv.Val) {
+				continue
+			}
+			v := Unwrap(sv.Val)
+			// looked up in m.files (map lookup, possibly the comma-ok form)
+			fromFiles := false
+			switch x := v.(type) {
+			case *ssa.Lookup:
+				fromFiles = isFieldLoad(x.X, "vlog.Manager", "files")
+			case *ssa.Extract:
+				if lk, ok := x.Tuple.(*ssa.Lookup); ok {
+					fromFiles = isFieldLoad(lk.X, "vlog.Manager", "files")
+				}
+			}
+			if !fromFiles {
+				continue
+			}
+			n++
+			c.Touch(f)
+			k := key(f, fmt.Sprintf("active=files[..][%d]#segment-is-in-active-state", i+1))
+			switch {
+			case FuncName(f) == "vlog.Open":
+				c.Pass(rule, k, st.Pos(), 1, "constructor: populate marks the newest segment active before the manager is shared")
+			case len(Calls(f, false, Named("vlog.(*Manager).create"))) > 0:
+				c.Pass(rule, k, st.Pos(), 1, "the segment was created in this function (fresh segments are active)")
+			default:
+				activated := false
+				for _, a := range Calls(f, false, Named("vlog.(*segment).activate")) {
+					if len(a.Common().Args) == 1 && sameSegment(a.Common().Args[0], v) {
+						activated = true
+					}
+				}
+				c.Decide(activated, rule, k, st.Pos(), 2, "the segment is reactivated before it is appended to", FuncName(f)+" makes an existing (sealed) segment the active one without activate(): its readers only pin it and take no store lock, so the next append grows and remaps the file under a reader that still holds mapped bytes")
+			}
+		}
+	}
+	c.Floor(rule, n, 3, "stores of an existing segment into Manager.active")
+}
+
+// sameSegment: a and b are the same segment value (directly, or both loaded from Manager.active,
+// or a is a phi/alias of b).
+func sameSegment(a, b ssa.Value) bool {
+	a, b = Unwrap(a), Unwrap(b)
+	if a == b {
+		return true
+	}
+	if isFieldLoad(a, "vlog.Manager", "active") {
+		return true
+	}
+	if phi, ok := a.(*ssa.Phi); ok {
+		for _, e := range phi.Edges {
+			if Unwrap(e) == b || isFieldLoad(e, "vlog.Manager", "active") {
+				return true
+			}
+		}
+	}
+	return false
+}
